@@ -282,6 +282,8 @@ def bohm_reference(cM4, cP4, S, eig, V):
     m = lambda t: t.reshape(9, 9)
     T = m(cP4 - cM4) @ m(S) + m(cM4)
     y = m(cP4) @ eig.reshape(9)
+    if not (np.all(np.isfinite(T)) and np.all(np.isfinite(y))):
+        return float('nan')
     X = np.linalg.pinv(T, rcond=1e-12) @ y            # T : X = cP : eig, X symmetric
     sC = m(cM4) @ (m(S) @ X)
     s0 = m(cM4) @ X
@@ -603,8 +605,14 @@ def part_energy(ctx, res, EF, r, lebedev_bad):
         se = make_se(EF, M, Pm, eig, rot, rotP, order)
         d = se.description; P = se.params
         V = 4 * math.pi / 3 * float(np.prod(rad))
-        E = variants(se, rad)
-        S = d.Sijmn(d.Dijkl(rad, P.cMatrix_4th))
+        try:
+            with np.errstate(all='ignore'):
+                E = variants(se, rad)
+                S = d.Sijmn(d.Dijkl(rad, P.cMatrix_4th))
+        except np.linalg.LinAlgError as ex:
+            res.violate('energy-evaluation-raises', 'strain energy evaluation raised ' + repr(ex), case); continue
+        if not all(math.isfinite(x) for x in E.values()):
+            res.violate('energy-not-finite', 'strain energy is not finite for positive-definite stiffness', case, E, 'finite'); continue
         escale = max(abs(x) for x in E.values())
         # ---- correspondence: the model evaluates the same quadrature (first cases use the small table)
         if k < ctx.n(8, 40):
@@ -918,7 +926,7 @@ def part_order_oracle(ctx, res, EF, r, n=None):
         items = {
             'matrix': (int(r.choice([2, 3, 4, 5])),),
             'rotation': (10, rand_rotation(r)),
-            'eigenstrain': gen_op(r, EF) if False else (14, rand_eig(r, 'full')),
+            'eigenstrain': (14, rand_eig(r, 'full')),
         }
         items['matrix'] = {2: lambda: (2, EF.elasticConstantToC(*rand_cubic(r))), 3: lambda: (3, EF.convert2To4rankTensor(EF.elasticConstantToC(*rand_cubic(r)))),
                            4: lambda: (4,) + tuple(float(x) for x in rand_cubic(r)), 5: lambda: (5, [float(10 ** r.uniform(10, 11.5)), float(r.uniform(0.1, 0.4)), None, None, None, None])}[items['matrix'][0]]()
@@ -934,8 +942,6 @@ def part_order_oracle(ctx, res, EF, r, n=None):
         o2 = [names[i] for i in r.permutation(len(names))]
         if r.random() < 0.4:
             o2 = o2 + [str(r.choice(names))]          # something supplied twice
-            if o2[-1] in o1:
-                pass
         ses = []
         for o in (o1, o2):
             se, _ = run_ops(EF, shape, [items[nm] for nm in o])
@@ -947,7 +953,7 @@ def part_order_oracle(ctx, res, EF, r, n=None):
             diff.append('description')
         if diff:
             late = lambda o: [nm for nm in o[o.index('matrix') + 1:] if nm != 'eigenstrain']
-            cause = sorted(set(late(o1)) ^ set(late(o2))) or sorted(set(o1) | set(o2))
+            cause = sorted(set(late(o1)) | set(late(o2))) or ['nothing-after-matrix']
             res.violate('setter-order:' + '+'.join(cause), 'the same rotation / stiffness / stress supplied in two orders gives different %s' % ', '.join(diff),
                         case, {f: np.asarray(ses[1][f]).ravel()[:6].tolist() if f != 'description' else ses[1]['desc'] for f in diff[:2]},
                         {f: np.asarray(ses[0][f]).ravel()[:6].tolist() if f != 'description' else ses[0]['desc'] for f in diff[:2]})
